@@ -2,6 +2,7 @@ package main
 
 import (
 	"fmt"
+	"math"
 	"regexp"
 	"strings"
 
@@ -140,6 +141,35 @@ func suiteText(tier string, seed uint64, model string) *Report {
 							ecs = append(ecs, ec{e, map[string]any{"a": int64(1)}})
 							reqs = append(reqs, "match\t"+e.Sexp()+"\t"+Show(map[string]any{"a": int64(1)}))
 						}
+					}
+				}
+			}
+		}
+	}
+	// a ! at the bottom right of two or three binary operators of rising precedence, itself the left
+	// operand of a looser operator
+	{
+		pa := func(k string) *Eqn { return &Eqn{Kind: "p", Path: []Frag{{Kind: "A"}, {Kind: "c", Key: k}}} }
+		not := func(e *Eqn) *Eqn { return &Eqn{Kind: "un", Op: "not", A: e} }
+		bin := func(op string, a, b *Eqn) *Eqn { return &Eqn{Kind: "bin", Op: op, A: a, B: b} }
+		var shapes []*Eqn
+		for _, top := range []string{"and", "or"} {
+			for _, mid := range []string{"eq", "neq", "and", "or"} {
+				shapes = append(shapes,
+					bin(top, bin(mid, pa("a"), not(pa("b"))), pa("c")),
+					bin(top, bin("and", pa("x"), bin(mid, pa("a"), not(pa("b")))), pa("c")),
+					bin(top, bin("or", pa("x"), bin(mid, pa("a"), not(pa("b")))), pa("c")),
+					bin(top, pa("c"), bin(mid, pa("a"), not(pa("b")))))
+			}
+		}
+		bools := []any{true, false}
+		for _, e := range shapes {
+			for _, va := range bools {
+				for _, vb := range bools {
+					for _, vc := range bools {
+						d := map[string]any{"a": va, "b": vb, "c": vc, "x": vb}
+						ecs = append(ecs, ec{e, d})
+						reqs = append(reqs, "match\t"+e.Sexp()+"\t"+Show(d))
 					}
 				}
 			}
@@ -330,6 +360,26 @@ func suiteText(tier string, seed uint64, model string) *Report {
 		map[string]any{"a": []any{int64(1), map[string]any{"b": int64(2), "a": []any{int64(2), int64(3)}}}, "b": []any{[]any{int64(1)}}},
 		[]any{map[string]any{"a": []any{int64(2)}}, []any{int64(1), []any{int64(7), int64(8)}}, int64(1)},
 	}
+	for _, x := range []jp.Expr{jp.R().Slice(1, 6, 2, 0), jp.R().Child("a").Slice(0, 3, 1, 7, 9), jp.R().Slice(1, 2, 1, 1).Child("b"), {jp.Root('$'), jp.Slice{0, 5, 2, 1}}} {
+		rep.Evaluations++
+		out := safe(func() string {
+			for _, s1 := range []string{x.String(), x.BracketString()} {
+				y, err := jp.ParseString(s1)
+				if err != nil {
+					return "E " + s1 + ": " + err.Error()
+				}
+				for _, d := range tdata {
+					if a, b := showList(x.Get(d)), showList(y.Get(d)); !sameList(a, b, false) {
+						return "V " + s1
+					}
+				}
+			}
+			return "ok"
+		})
+		if out != "ok" {
+			rep.Add(Disagreement{Case: fmt.Sprintf("%#v", x), Where: "Expr.String (slice with more than three members)", Kind: "impl-law:expr-roundtrip", Impl: out, Spec: "reads back and selects the same elements"})
+		}
+	}
 	for _, t := range texts {
 		rep.Evaluations++
 		out := safe(func() string {
@@ -369,7 +419,13 @@ func suiteText(tier string, seed uint64, model string) *Report {
 			rep.Add(Disagreement{Case: t, Where: "Expr.String (parsed expression)", Kind: "impl-law:expr-roundtrip", Impl: out, Spec: "reads back, prints identically, selects the same elements"})
 		}
 	}
-	for _, k := range []float64{1e6, 8.64e7, 1e21, 1.5e6, 1e-7, 123456789, -1e6, 2.5e10, 1e5, 999999, 1e15, 1e16, 0.000001, 5e-324, 1.7976931348623157e308} {
+	fconsts := []float64{1e6, 8.64e7, 1e21, 1.5e6, 1e-7, 123456789, -1e6, 2.5e10, 1e5, 999999, 1e15, 1e16, 0.000001, 5e-324, 1.7976931348623157e308}
+	for _, base := range []float64{12.1, 0.3, 1, 100000.1, 5e-5, 123456.789, 0.1, 7.7, 1234567.1, 99.99} {
+		// neighbours of round decimals: their shortest texts have 16-17 significant digits
+		up, down := math.Nextafter(base, math.Inf(1)), math.Nextafter(base, math.Inf(-1))
+		fconsts = append(fconsts, up, down, math.Nextafter(up, math.Inf(1)), base*3, base/3)
+	}
+	for _, k := range fconsts {
 		for _, op := range []func(l, r *jp.Equation) *jp.Equation{jp.Eq, jp.Lt, jp.Gte} {
 			e := op(jp.Get(jp.A().C("a")), jp.ConstFloat(k))
 			for where, text := range map[string]string{"Filter.String": e.Filter().String(), "Script.String": e.Script().String()} {
